@@ -521,3 +521,81 @@ package astits
 //@   loop 0 invariant [W] ePad: fits && atentry(written) == 4 + afb + ite(p.Header.HasPayload, len(p.Payload), 0) && atentry(wN(w)) == n0 + atentry(written)
 //@   loop 0 invariant [C18] nofail: wF(w) == old(wF(w))
 //@   loop 0 decreases [W] targetPacketSize - written
+
+//@ func calcPESOptionalHeaderDataLength
+//@   requires h != nil && 0 <= len(h.Extension2Data) && len(h.Extension2Data) <= 127
+//@   ensures [W] len: length == u8(ohData(h))
+
+//@ func calcPESOptionalHeaderLength
+//@   requires h != nil ==> 0 <= len(h.Extension2Data) && len(h.Extension2Data) <= 127
+//@   ensures [W] len: result == ite(h == nil, 0, u8(3 + ohData(h)))
+
+//@ func writePESOptionalHeader
+//@   requires aligned(w) && (h != nil ==> ohOK(h)) && 0 <= wN(w) && wN(w) < 0x800000000000
+//@   modifies writer(w)
+//@   let n0 = old(wN(w))
+//@   let ind = h.PTSDTSIndicator
+//@   let oESCR = ohESCR(h)
+//@   let oRate = ohRate(h)
+//@   let oTrick = ohTrick(h)
+//@   let oCopy = ohCopy(h)
+//@   let oExtF = ohExtF(h)
+//@   let oPD = ohPD(h)
+//@   let oSeq = ohSeq(h)
+//@   let oPSTD = ohPSTD(h)
+//@   let oExt2 = ohExt2(h)
+//@   let byte0 = 0x80 | (h.ScramblingControl & 3) << 4 | u8(h.Priority) << 3 | u8(h.DataAlignmentIndicator) << 2 | u8(h.IsCopyrighted) << 1 | u8(h.IsOriginal)
+//@   let byte1 = (ind & 3) << 6 | u8(h.HasESCR) << 5 | u8(h.HasESRate) << 4 | u8(h.HasDSMTrickMode) << 3 | u8(h.HasAdditionalCopyInfo) << 2 | u8(h.HasExtension)
+//@   split h.HasExtension, ind == 2, ind == 3, h.HasESCR, h.HasPSTDBuffer, h.HasExtension2, h.HasPrivateData
+//@   at read PESOptionalHeader.PTSDTSIndicator#1 cut [W] c1: wN(w) == n0 + 3 && bytesWritten == 3 && aligned(w) && b.err == nil && h != nil
+//@   at read PESOptionalHeader.PTSDTSIndicator#1 assert [C12] h0: wb(w, n0, 0) == byte0 && wb(w, n0, 1) == byte1 && wb(w, n0, 2) == u8(ohData(h))
+//@   at read PESOptionalHeader.PTSDTSIndicator#2 cut [W] c2: wN(w) == n0 + 3 + ite(ind == 2, 5, 0) && bytesWritten == 3 + ite(ind == 2, 5, 0) && aligned(w) && b.err == nil && h != nil
+//@   at read PESOptionalHeader.HasESCR#1 cut [W] c3: wN(w) == n0 + oESCR && bytesWritten == oESCR && aligned(w) && b.err == nil && h != nil
+//@   at read PESOptionalHeader.HasESRate#1 cut [W] c4: wN(w) == n0 + oRate && bytesWritten == oRate && aligned(w) && b.err == nil && h != nil
+//@   at read PESOptionalHeader.HasDSMTrickMode#1 cut [W] c5: wN(w) == n0 + oTrick && bytesWritten == oTrick && aligned(w) && b.err == nil && h != nil
+//@   at read PESOptionalHeader.HasAdditionalCopyInfo#1 cut [W] c6: wN(w) == n0 + oCopy && bytesWritten == oCopy && aligned(w) && b.err == nil && h != nil
+//@   at read PESOptionalHeader.HasCRC#0 cut [W] c7: wN(w) == n0 + oExtF && bytesWritten == oExtF && aligned(w) && b.err == nil && h != nil
+//@   at read PESOptionalHeader.HasExtension#1 cut [W] c8: wN(w) == n0 + oExtF && bytesWritten == oExtF && aligned(w) && b.err == nil && h != nil
+//@   at read PESOptionalHeader.HasPrivateData#1 cut [W] c9: wN(w) == n0 + oPD && bytesWritten == oPD && aligned(w) && b.err == nil && h != nil && h.HasExtension
+//@   at read PESOptionalHeader.HasPackHeaderField#0 cut [W] c10: wN(w) == n0 + oSeq && bytesWritten == oSeq && aligned(w) && b.err == nil && h != nil && h.HasExtension
+//@   at read PESOptionalHeader.HasProgramPacketSequenceCounter#1 cut [W] c11: wN(w) == n0 + oSeq && bytesWritten == oSeq && aligned(w) && b.err == nil && h != nil && h.HasExtension
+//@   at read PESOptionalHeader.HasPSTDBuffer#1 cut [W] c12: wN(w) == n0 + oPSTD && bytesWritten == oPSTD && aligned(w) && b.err == nil && h != nil && h.HasExtension
+//@   at read PESOptionalHeader.HasExtension2#1 cut [W] c13: wN(w) == n0 + oExt2 && bytesWritten == oExt2 && aligned(w) && b.err == nil && h != nil && h.HasExtension
+//@   ensures [W] nil: h == nil ==> result0 == 0 && result1 == nil && wN(w) == n0 && aligned(w)
+//@   ensures [W] n: h != nil ==> result1 == nil && result0 == ohEnd(h) && wN(w) == n0 + ohEnd(h) && aligned(w)
+//@   ensures [C18] surfaced: wF(w) != old(wF(w)) ==> result1 != nil
+
+//@ func writePESHeader
+//@   requires aligned(w) && h != nil && (h.OptionalHeader != nil ==> ohOK(h.OptionalHeader)) && (h.StreamID != 190 && h.StreamID != 191 ==> h.OptionalHeader != nil) && 0 <= wN(w) && wN(w) < 0x400000000000 && 0 <= payloadSize && payloadSize < 0x100000000
+//@   modifies writer(w)
+//@   let n0 = old(wN(w))
+//@   let hasOpt = h.StreamID != 190 && h.StreamID != 191
+//@   let optLen = ite(h.OptionalHeader == nil, 0, ohEnd(h.OptionalHeader))
+//@   let video = h.StreamID == 0xe0 || h.StreamID == 0xfd
+//@   let plen = payloadSize + ite(hasOpt, optLen, 0)
+//@   let field = ite(video || plen > 0xffff, 0, plen)
+//@   ensures [W] n: result1 == nil && result0 == 6 + ite(hasOpt, optLen, 0) && wN(w) == n0 + 6 + ite(hasOpt, optLen, 0) && aligned(w)
+//@   at call (*astikit.BitsWriterBatch).Err#0 assert [C12,C01] start: !hasOpt ==> wb(w, n0, 0) == 0 && wb(w, n0, 1) == 0 && wb(w, n0, 2) == 1 && wb(w, n0, 3) == h.StreamID
+//@   at call (*astikit.BitsWriterBatch).Err#0 assert [C12,C01] length: !hasOpt ==> wb(w, n0, 4) == u8(field >> 8) && wb(w, n0, 5) == u8(field & 0xff)
+//@   at call writePESOptionalHeader#0 assert [C12,C01] startOpt: wb(w, n0, 0) == 0 && wb(w, n0, 1) == 0 && wb(w, n0, 2) == 1 && wb(w, n0, 3) == h.StreamID
+//@   at call writePESOptionalHeader#0 assert [C12,C01] lengthOpt: wb(w, n0, 4) == u8(field >> 8) && wb(w, n0, 5) == u8(field & 0xff)
+//@   ensures [C18] surfaced: wF(w) != old(wF(w)) ==> result1 != nil
+
+//@ func calcPESDataLength
+//@   requires h != nil && (h.OptionalHeader != nil ==> 0 <= len(h.OptionalHeader.Extension2Data) && len(h.OptionalHeader.Extension2Data) <= 127) && 0 <= len(payloadLeft)
+//@   let hdr = 6 + ite(isPayloadStart, ite(h.OptionalHeader == nil, 0, 3 + ohData(h.OptionalHeader)), 0)
+//@   ensures [W] total: totalBytes == hdr
+//@   ensures [W] payload: payloadBytes == ite(len(payloadLeft) < bytesAvailable - hdr, len(payloadLeft), bytesAvailable - hdr)
+
+//@ func writePESData
+//@   requires aligned(w) && h != nil && (h.OptionalHeader != nil ==> ohOK(h.OptionalHeader)) && (h.StreamID != 190 && h.StreamID != 191 ==> h.OptionalHeader != nil) && 0 <= wN(w) && wN(w) < 0x400000000000 && allocated(payloadLeft) && 0 <= len(payloadLeft) && len(payloadLeft) < 0x100000000
+//@   requires 0 <= bytesAvailable && bytesAvailable <= 184
+//@   requires isPayloadStart ==> 6 + ite(h.StreamID != 190 && h.StreamID != 191, ite(h.OptionalHeader == nil, 0, 3 + ohData(h.OptionalHeader)), 0) <= bytesAvailable
+//@   modifies writer(w)
+//@   let n0 = old(wN(w))
+//@   let hasOpt = h.StreamID != 190 && h.StreamID != 191
+//@   let hdr = ite(isPayloadStart, 6 + ite(hasOpt, ite(h.OptionalHeader == nil, 0, 3 + ohData(h.OptionalHeader)), 0), 0)
+//@   let np = ite(bytesAvailable - hdr > len(payloadLeft), len(payloadLeft), bytesAvailable - hdr)
+//@   ensures [W] n: err == nil && payloadBytesWritten == np && totalBytesWritten == hdr + np && wN(w) == n0 + hdr + np && aligned(w)
+//@   ensures [C12,C01,C16] data: sub(wD(w), n0 + hdr, np) == bytesOf(payloadLeft[:np])
+//@   ensures [C18] surfaced: wF(w) != old(wF(w)) ==> err != nil
